@@ -232,6 +232,10 @@ def worker_env(prop, seed, tier, **kw):
                VERIF_KNOWN=os.path.join(VERIF, "known_findings.json"),
                VERIF_REPLAY_DIR=os.path.join(VERIF, "replays", prop))
     env.update({k: str(v) for k, v in kw.items()})
+    eng = env.get("VERIF_ENGINE")
+    if eng and ENGINES.get(eng, {}).get("weave"):
+        # the site table of the woven build (which file each yield site is in)
+        env["VERIF_WEAVE_JSON"] = os.path.join(repo_build_dir(), "woven-" + eng, "weave.json")
     return env
 
 
